@@ -360,6 +360,8 @@ def run(ctx):
     ctx.rule("R01.u", "update model: Parameters._update interpreted abstractly (entry flag x key orders x rejected / unknown key x a key given the value it already holds): every key given "
                       "reaches the validating setter, so update(...) accepts exactly what an assignment accepts", floor=1)
     ctx.rule("R01.m", "setter model: Parameter.__set__ interpreted abstractly on every combination (576) of route x constant/readonly x validation outcome x identity x reference mode x watchers x batching agrees with the specification of this property (see checks/setter_model.py)", floor=1)
+    ctx.rule("R01.x", "the allowed objects are what the mutators say they are (ListProxy model, shared with R18.j): after every list-style or dictionary-style mutation the list a Selector "
+                      "validates against holds exactly the objects the mutation describes -- a replacement that lands in the wrong slot keeps a removed object valid and drops a listed one", floor=1)
     ctx.rule("R01.r", "Color's hex test accepts exactly the declared value set: the LANGUAGE of the literal pattern, computed from its parse tree (re._parser.parse; nothing is matched) over the "
                       "abstract alphabet {'#', hex digit, other}, is {#?hhh, #?hhhhhh} anchored at both ends (case-insensitive flags are followed)", floor=1)
     ctx.rule("R01.w", "namespace model (shared with R13.h): ParameterizedMetaclass.__setattr__ / _clear_params_cache, Parameters.add_parameter and the _cls_parameters property interpreted abstractly on hierarchies of up to three levels and a diamond: after every class-level assignment, add_parameter or removal, `.param[name]` of every class of the hierarchy is the very Parameter object that governs attribute access there -- a stale lookup hands `C.param.x.bounds = ...` to another Parameter than the one that validates assignments to C and its instances: the constraints in force are ignored", floor=1)
@@ -378,6 +380,8 @@ def run(ctx):
     rule_h(ctx)
     rule_regex(ctx)
     rule_color_pattern(ctx, "R01.r")
+    from checks import listproxy_model
+    listproxy_model.report(ctx, "R01.x", objects_only=True)
     from checks.shared import inherited_default_revalidated
     inherited_default_revalidated(ctx, "R01.k")
     from checks import selector_model
